@@ -109,7 +109,7 @@ _SIBLING_FLUSH = {
 }
 
 mach.install(globals(), "C20", NAMES, ("C20:",), PROFILES, n_quick=200, n_thorough=2500, nontrivial=_nontrivial,
-             extra_monitors=_extra, corpus=[_SIBLING_FLUSH])
+             extra_monitors=_extra, corpus=[_SIBLING_FLUSH], level="proof")
 for _c in CORPUS:
     _c["variants"] = _SIBLING_FLUSH["variants"]
     _c["tree"]["variants"] = _c["variants"]
